@@ -138,10 +138,10 @@ def run(chk):
     if chk.want("R03.6"):
         from .c14 import crystal_memo_rule
         crystal_memo_rule(chk, "R03.6")
-    chk.rule("R03.7", "the unit-cell atoms the neighbourhood queries draw from are the distinct sites of the cell: wrap before merge, periodic and distance-based coincidence, occupancy-conserving merge (= C01 R01.3, R01.4)", 4)
+    chk.rule("R03.7", "the unit-cell atoms the neighbourhood queries draw from are the distinct sites of the cell: wrap before merge, periodic and distance-based coincidence, aligned per-atom columns, occupancy-conserving merge (= C01 R01.2, R01.3, R01.4)", 4)
     if chk.want("R03.7"):
         from ..inherit import inherit
-        inherit(chk, "R03.7", "c01", ["R01.3", "R01.4"])
+        inherit(chk, "R03.7", "c01", ["R01.2", "R01.3", "R01.4"])
     chk.assume("KD-tree ball queries, tolerance edge cases and tightness of ceil are not decided")
     chk.assume("a Cartesian ball of radius r spans |delta frac_i| <= r * |column i of the inverse matrix| (exact geometry)")
 
